@@ -46,7 +46,8 @@ DELIMS = '"\'!#%(),:;[]{}'
 SHEETS = ['Sheet1', 'Data', 'My Sheet', "It's", 'Q1 2020', 'a_b',
           # characters that are syntax OUTSIDE a quoted sheet name
           'Plan (v2', 'x) y', '5" pipe', 'a,b', 'p&l', '(old) data', 'a+b',
-          'R=1', 'FY24-Q1', '{x}', '#REF', '100%', 'a;b', 'TRUE']
+          'R=1', 'FY24-Q1', '{x}', '#REF', '100%', 'a;b', 'TRUE',
+          'Cafe\u0301', '\u2126 values', '\uff12\uff10\uff12\uff14']
 FUNCS = ['SUM', 'IF', 'MAX', 'CONCAT', 'ROUND', 'MID', 'PI', 'AND', 'LEN',
          'VLOOKUP', 'COUNTIFS', '_xlfn.CONCAT']
 ALPHABET = ''.join(chr(c) for c in range(32, 127))
@@ -202,6 +203,9 @@ def rand_string(rng, hostile):
         n = rng.randint(0, 6)
         pool = list(DELIMS + 'aZ 09=+-*/<>&^.') + ['\r\n', '\r', '\n',
                                                    '\t', '\r\n', '\n\r']
+        # characters that a Unicode normalisation would replace
+        pool += ['e\u0301', '\u2126', '\u212b', '\u1100\u1161', 'o\u0308',
+                 '\uff11', '\ufb01', '\u00b2']
         return ''.join(rng.choice(pool) for _ in range(n))
     n = rng.randint(0, 10)
     return ''.join(rng.choice(ALPHABET) for _ in range(n))
